@@ -153,6 +153,53 @@ def createWF (p : Path) (nl bs : Nat) (d : Disk) (rs : List Res) : FSt :=
   let (s3, r3) := s2.issue (.write p 64 (nmCells nl))
   { s3 with failed := !r3.isOk }
 
+/-! ### Compaction under faults -/
+
+/-- entries until the first failing flush (`WriteEntry` error ⇒ the compaction loop stops) -/
+def addUntilFail (fc : FCfg) (mk : Mk) (s : FSt) : List (Op × Nat) → FSt
+  | [] => s
+  | (e, sz) :: rest =>
+    let s1 := addWF fc mk { s with failed := false } e sz
+    if s1.failed then s1 else addUntilFail fc mk s1 rest
+
+def rmTempF (s : FSt) : FSt :=
+  match s.d.temp with
+  | some _ => (s.issue (.unlink .temp)).1
+  | none => s
+
+/-- `Compactor.Compact` / `CompactFromIndex` under faults: any failure after the temp was opened
+    closes the writer, removes the temp and returns the error; the main file is only ever touched
+    by the final rename. -/
+def compactF (c : Cfg) (fc : FCfg) (mk : Mk) (d : Disk) (rs : List Res) (rmFirst : Bool)
+    (entries : List (Op × Nat)) (bs : Nat) : FSt :=
+  let w0 : WSt := { path := .temp, pos := 0, nl := mainNl d, buf := [], bufSize := 0, bs := bs }
+  let s0 : FSt := { w := w0, d := d, rs := rs }
+  let s0 := if rmFirst then rmTempF s0 else s0
+  -- NewFileWriterWithName(temp)
+  let opened : FSt × Bool :=
+    match s0.d.temp with
+    | none =>
+      let s := createWF .temp (mainNl d) bs s0.d s0.rs
+      ({ s with ops := s0.ops ++ s.ops }, !s.failed)
+    | some _ =>
+      match openWriter c s0.d .temp (mainNl d) bs with
+      | some (w, oo) =>
+        let s1 := oo.foldl (fun (s : FSt) op => if s.failed then s else
+          let (s', r) := s.issue op
+          { s' with failed := !r.isOk }) { s0 with w := w }
+        (s1, !s1.failed)
+      | none => ({ s0 with failed := true }, false)
+  if !opened.2 then { opened.1 with failed := true } else
+  let s1 := addUntilFail fc mk opened.1 entries
+  if s1.failed then
+    -- writer.Close() (its own result is ignored), os.Remove(temp)
+    { rmTempF { closeWF c fc mk s1 with failed := false } with failed := true }
+  else
+  let s2 := closeWF c fc mk s1
+  if s2.failed then { rmTempF s2 with failed := true } else
+  let (s3, r3) := s2.issue (.rename .temp .main)
+  if !r3.isOk then { rmTempF s3 with failed := true } else s3
+
 /-- chronicler state under faults -/
 structure CFSt where
   cs : CSt
@@ -221,5 +268,22 @@ def cCloseF (c : Cfg) (fc : FCfg) (mk : Mk) (st : CFSt) : CFOut :=
   | some w =>
     let s := closeWF c fc mk { w := w, d := st.d, rs := st.rs }
     ⟨{ cs := { st.cs with w := none }, d := s.d, rs := s.rs }, s.ops, s.failed⟩
+
+/-- `runCompactionLocked` / CLI / load self-heal under faults -/
+def cCompactF (c : Cfg) (fc : FCfg) (mk : Mk) (st : CFSt) (ep : EP) (order : List (Nat × Nat)) (skip : Bool) : CFOut :=
+  -- runCompactionLocked first closes the chronicler's writer; a failing Close aborts
+  let pre : CFOut := if ep == .locked then cCloseF c fc mk st else ⟨st, [], false⟩
+  if pre.failed then pre else
+  let st1 := pre.st
+  if skip then
+    let s : FSt := { w := { path := .temp, pos := 0, nl := 0, buf := [], bufSize := 0, bs := 0 }, d := st1.d, rs := st1.rs }
+    let s := if ep == .locked && c.rmTempLocked then rmTempF s else s
+    ⟨{ st1 with d := s.d, rs := s.rs }, pre.ops ++ s.ops, false⟩
+  else
+  match mainIndex c st1.d with
+  | none => ⟨st1, pre.ops, true⟩
+  | some idx =>
+    let s := compactF c fc mk st1.d st1.rs (ep.rmFirst c) (liveEntries idx order) (if ep == .cli then 16384 else st1.cs.bs)
+    ⟨{ st1 with d := s.d, rs := s.rs }, pre.ops ++ s.ops, s.failed⟩
 
 end Hv.BlockStore
